@@ -108,6 +108,19 @@ CLAIMS.update({
    design="3/C14"),
 })
 
+CLAIMS.update({
+ 'C18': dict(
+   text="Explicit-state breadth-first search (X2) over the real server configured with tiny limits (2 concurrent streams, reset memory 2, pending-accept resets 2, library resets 3, header list 128, window 64, DATA budget 512) against a hostile scripted peer: open, open+RST_STREAM, oversized header lists, HEADERS / CONTINUATION without END_HEADERS, DATA 0 / 1 / 40 / padded, DATA and RST_STREAM on old streams, zero WINDOW_UPDATE (library resets), WINDOW_UPDATE / PRIORITY floods, PING, SETTINGS; application accepting or not (poll_closed), reading, responding, dropping; writes open or blocked; reset memory never / at once expiring. Invariant in every state read through the snapshot hook: stream records, buffered received events, queued frames within bounds computed from the limits plus what the application holds; connection Debug text bounded. In addition 15 attack loops are each run linearly for 3000 (quick) / 12000 (thorough) rounds (single deep executions, reported separately): retained state at the end must not exceed the state at half time, and with writes blocked input consumption must stop.",
+   note="The long directed runs are single executions, not exploration; 'unbounded length' is decided by the bounded search plus these runs (DESIGN.md 4).",
+   tech="explicit-state BFS over the real implementation with canonical state hashing; resource-bound invariants read through a snapshot hook; directed long runs",
+   design="3/C18"),
+ 'C19': dict(
+   text="Explicit-state breadth-first search (X2) over the real client (2-3 streams, two SendRequest clones; reset memory 'never expires' and 'expires at once'): request with / without body, END_STREAM, peer response (with / without END_STREAM), peer DATA END_STREAM, peer RST_STREAM, poll the response, read, client reset, drop of ResponseFuture / SendStream / RecvStream / a SendRequest clone in every order relative to connection polls, time passing (quick: depth 8, 1.2 M executions). Epilogue from every new state: both sides finish every stream, every stream handle is dropped, quiescence - then the snapshot hook must show no stream record beyond <= 2 remembered local resets (none once expired), both counters 0, empty buffers, no in-flight octets, the whole connection send window unassigned; then the last SendRequest is dropped and the connection must have been woken, send GOAWAY(NO_ERROR), shut the transport down and return Ok(()). Panics ('dangling store key', drop assertions) are violations.",
+   note="Server-side release of records is covered by C18 / C05 models; this model is client-side because the idle-close clause is.",
+   tech="explicit-state BFS over the real implementation with canonical state hashing; leak oracle read through a snapshot hook from every new state",
+   design="3/C19"),
+})
+
 NOT_YET = "check not built yet (work in progress; DESIGN.md section 3 describes the planned harness)"
 NA = {}
 
